@@ -13,6 +13,7 @@ mod routes;
 mod apply_domain;
 mod status_writes;
 mod lock_sites;
+mod pure_fns;
 
 fn main() {
     let args: Vec<String> = std::env::args().collect();
@@ -31,6 +32,7 @@ fn main() {
         "apply_domain" => apply_domain::run(&repo),
         "status_writes" => status_writes::run(&repo),
         "lock_sites" => lock_sites::run(&repo),
+        t if t == "pure_fns" || t.starts_with("pure_fns:") => pure_fns::run(&repo, t),
         t => {
             eprintln!("unknown table {t}");
             std::process::exit(2);
@@ -43,5 +45,8 @@ fn main() {
             std::fs::create_dir_all(p).expect("mkdir");
         }
         std::fs::write(out, text).expect("write");
+    }
+    if pure_fns::FAILED.load(std::sync::atomic::Ordering::SeqCst) {
+        std::process::exit(1);
     }
 }
